@@ -560,9 +560,10 @@ def target_points(shape, lo, hi, three_d, rng):
     return [tuple(p) for p in pts]
 
 
-def flatten_layer(coords, dims, axis, k):
+def flatten_layer(coords, dims, axis, k, exact=True):
     """Puts the nodes of lattice layer `k` along `axis` of an mg.hex_block(*dims) exactly onto the plane
-    coordinate = k (the other coordinates keep their perturbation; the mesh stays non-degenerate and 3D)."""
+    coordinate = k (the other coordinates keep their perturbation; the mesh stays non-degenerate and 3D).
+    exact=False: only lists the nodes of the layer."""
     nx, ny, nz = dims
     out, layer = list(coords), []
     for kk in range(nz + 1):
@@ -570,9 +571,10 @@ def flatten_layer(coords, dims, axis, k):
             for i in range(nx + 1):
                 if (i, j, kk)[axis] == k:
                     nd = i + (nx + 1) * (j + (ny + 1) * kk)
-                    p = list(out[nd])
-                    p[axis] = float(k)
-                    out[nd] = tuple(p)
+                    if exact:
+                        p = list(out[nd])
+                        p[axis] = float(k)
+                        out[nd] = tuple(p)
                     layer.append(nd)
     return out, layer
 
@@ -630,9 +632,9 @@ def mapping_relations(res, rng, n, stats):
         three_d = m % 3 != 0
         dims = rng.choice([(2, 2, 2), (3, 2, 2), (3, 3, 2)])
         coords, elements, _ = mg.hex_block(*dims, rng, jitter=0.2)
-        # one lattice layer of nodes exactly plane (targets taken from it share one coordinate); still a 3D mesh
+        # 60 %: one lattice layer of nodes exactly plane (targets taken from it share one coordinate); still a 3D mesh
         axis, layer_k = rng.randrange(3 if three_d else 2), rng.randint(0, 2)
-        coords, layer = flatten_layer(coords, dims, axis, layer_k)
+        coords, layer = flatten_layer(coords, dims, axis, layer_k, exact=rng.random() < 0.6)
         g, c = rand_field(rng)
         if not three_d:
             coords = [(p[0], p[1], 0.0) for p in coords]
